@@ -364,6 +364,13 @@ func (*C03B) Resolve(field *ggql.Field, args map[string]interface{}) (interface{
 	return int32(10 + len(args)), nil
 }
 
+// reflection variants of the same nodes (methods with parameters)
+type C03RA struct{ G, A int32 }
+type C03RB struct{ G, B int32 }
+
+func (*C03RA) F(x, y int32) int32 { return x + y }
+func (*C03RB) F(x, y int32) int32 { return x - y }
+
 type c03AbsQuery struct{ elems []interface{} }
 
 func (q *c03AbsQuery) Resolve(field *ggql.Field, args map[string]interface{}) (interface{}, error) {
@@ -389,16 +396,23 @@ var c03AbsRequests = []string{
 // C03_abstract_args: fields with several declared arguments, partly supplied,
 // selected on an interface / union whose list holds objects of several
 // concrete types in every order: the same selection node is resolved under
-// each of them.  (Resolver nodes bound with RegisterType.)
+// each of them.  Resolver nodes bound with RegisterType, or reflected structs
+// whose field f is a method with two parameters.
 func C03_abstract_args() {
 	req := c03AbsRequests[sym.Choice("request", len(c03AbsRequests))]
+	reflected := sym.Choice("strategy", 2) == 1
 	n := 1 + sym.Choice("elements", 3)
 	q := &c03AbsQuery{}
 	for k := 0; k < n; k++ {
 		isA := sym.Choice("element type", 2) == 0
-		if isA {
+		switch {
+		case reflected && isA:
+			q.elems = append(q.elems, &C03RA{})
+		case reflected:
+			q.elems = append(q.elems, &C03RB{})
+		case isA:
 			q.elems = append(q.elems, &C03A{})
-		} else {
+		default:
 			q.elems = append(q.elems, &C03B{})
 		}
 	}
@@ -406,7 +420,13 @@ func C03_abstract_args() {
 	if err := root.ParseString(c03AbsSchema); err != nil {
 		panic("harness schema rejected: " + err.Error())
 	}
-	if root.RegisterType(&C03A{}, "A") != nil || root.RegisterType(&C03B{}, "B") != nil {
+	var ea, eb error
+	if reflected {
+		ea, eb = root.RegisterType(&C03RA{}, "A"), root.RegisterType(&C03RB{}, "B")
+	} else {
+		ea, eb = root.RegisterType(&C03A{}, "A"), root.RegisterType(&C03B{}, "B")
+	}
+	if ea != nil || eb != nil {
 		panic("harness: RegisterType refused")
 	}
 	sym.Budget(6_000_000)
